@@ -133,9 +133,12 @@ def _one(args):
             out['issues'] = []
             if r['json'] and 'results' in r['json']:
                 # the run raised after writing result records: still look at them
+                # (e.g. the HDF5 writer failed after the JSON file was complete): the records are validated by
+                # TLC like those of a successful run, and the failure itself is reported under clause 130
                 try:
-                    _, issues, _ = maptrace.assemble(scn, r, votes=votes)
-                    out['issues'] = issues
+                    tr, issues, _ = maptrace.assemble(scn, r, votes=votes)
+                    out['trace'] = tr
+                    out['issues'] = issues + [(130, f'the run raised after writing its result records: {r["error"]}')]
                     out['results_despite_failure'] = True
                 except Exception:
                     pass
